@@ -300,6 +300,13 @@ def generate(rnd, tier, index=0):
     else:
         combo, entry, pos = rnd.choice(COMBOS), rnd.choice(ENTRIES), rnd.choice(POSITIONS)
     cfg, spare = _cfg_for(rnd, *combo)
+    fault_sched = None
+    if rnd.random() < 0.3:
+        # the rejected call runs with n_jobs > 1 under a seeded worker schedule: a shape error surfacing inside parallel
+        # training meets arms that other workers have (or have not yet) updated
+        cfg["n_jobs"] = rnd.choice([2, 3, -1])
+        cfg["backend"] = rnd.choice([None, "threading"])
+        fault_sched = kernel.Sched.draw(rnd)
     ctxl = is_contextual(cfg)
     d = rnd.randint(1, 3)
     if entry == "partial_fit.other_column_count" and rnd.random() < 0.5:
@@ -357,7 +364,8 @@ def generate(rnd, tier, index=0):
         # "every later sequence of calls": one context handed over as a pandas Series (its interpretation as one row or
         # one column depends on what the bandit remembers about the number of features)
         cont.append({"op": "expect", "Q": [Q[0]], "container": "series_auto"})
-    return {"cfg": cfg, "ops": prefix, "entry": entry, "eseed": rnd.randrange(2 ** 30), "cont": cont, "pos": pos}
+    return {"cfg": cfg, "ops": prefix, "entry": entry, "eseed": rnd.randrange(2 ** 30), "cont": cont, "pos": pos,
+            "fault_sched": fault_sched}
 
 
 def shrink_paths(case):
@@ -441,6 +449,9 @@ def execute(case, ctx):
             return
         meth, args = call
         arms_before = list(P.mab.arms)
+        if case.get("fault_sched"):
+            ctx.sched = kernel.Sched.from_json(case["fault_sched"])
+            ctx.parallel_calls = 0
         try:
             getattr(P.mab, meth)(*args)
             raised = False
@@ -449,6 +460,8 @@ def execute(case, ctx):
         except Exception as e:   # noqa
             raised = True
             ctx.ev("rejected", entry, type(e).__name__)
+        finally:
+            ctx.sched = None
         if not raised:
             # no claim: keep both comparable by making the same call on the copy
             ctx.fired("probe.not_rejected." + entry)
